@@ -30,6 +30,7 @@ EVD = {"ev": "", "id": 0, "caught": False, "cc": False, "exc": "", "t": 0}
 # programs: AST = list of statements
 #   ("sleep", d) ("mark", k) ("cancel", scope_id) ("resched", scope_id, d) ("scope", id, kind, d, body) ("shield", body)
 #   ("cyield",) = backend.cancel_shielded_coro_yield(): a bare checkpoint run with cancellation muted, i.e. shield{sleep(0)}
+#   ("join", k, d) = a task group whose only child sleeps d ticks and then marks k; the parent waits at the end of the group
 
 
 def flatten(ast: list[Any]) -> list[dict[str, Any]]:
@@ -60,6 +61,8 @@ def flatten(ast: list[Any]) -> list[dict[str, Any]]:
                 ins("shin")
                 ins("sleep", d=0)
                 ins("shout")
+            elif st[0] == "join":
+                ins("join", st[1], d=st[2])
 
     go(ast)
     return out
@@ -75,6 +78,8 @@ def gen_program(rng: random.Random, max_depth: int = 3) -> list[Any]:
             r = rng.random()
             if r < 0.05 and not in_shield:
                 out.append(("cyield",))
+            elif r < 0.12:
+                out.append(("join", next(marks), rng.choice([1, 1, 2, 3, 5])))
             elif r < 0.30:
                 out.append(("sleep", rng.choice([0, 1, 1, 2, 3, 5])))
             elif r < 0.40:
@@ -142,6 +147,14 @@ async def execute(ast: list[Any], ext: int) -> list[dict[str, Any]]:
                 log("shield_in")
                 await backend.cancel_shielded_coro_yield()
                 log("shield_out")
+            elif st[0] == "join":
+
+                async def child(k: int = st[1], d: int = st[2]) -> None:
+                    await backend.sleep(d * TICK)
+                    log("mark", k)
+
+                async with backend.create_task_group() as tg:
+                    tg.start_soon(child)
             elif st[0] == "scope":
                 _, sid, kind, d, body = st
                 if kind == "move_on":
@@ -197,6 +210,8 @@ def ast_str(ast: list[Any]) -> str:
                 parts.append(f"resched#{st[1]}({'inf' if st[2] >= INF else st[2]})")
             elif st[0] == "cyield":
                 parts.append("cancel_shielded_yield")
+            elif st[0] == "join":
+                parts.append(f"group{{child: sleep({st[2]}); mark({st[1]})}}")
             else:
                 parts.append(f"{st[0]}({st[1]})")
         return "; ".join(parts)
@@ -246,6 +261,9 @@ def _small_programs() -> list[tuple[list[Any], int]]:
         [("shield", [("scope", 2, "timeout", 1, [("sleep", 2)])]), ("sleep", 1)],
         [("resched", 1, 4), ("sleep", 3)],
         [("resched", 1, 0), ("sleep", 1)],
+        [("join", 5, 1), ("sleep", 1)],
+        [("join", 5, 3), ("mark", 6)],
+        [("shield", [("join", 5, 3)]), ("sleep", 1)],
     ]
     progs: list[tuple[list[Any], int]] = []
     for body in bodies:
@@ -310,7 +328,7 @@ def run(chk: Check) -> None:
     rng = random.Random(chk.seed)
     chk.rule = (
         "programs = the systematic small family (model checking) + a systematic family of three nested scopes whose inner cancellation is absorbed by a shield while the outer one is cancelled + seeded random ASTs up to depth 3-4 (1-3 statements per block: sleeps incl. bare "
-        "checkpoints, marks, scope.cancel(), reschedule(), nested move_on_after/timeout/open scopes with delays 0-6 ticks, ignore_cancellation sections) x "
+        "checkpoints, marks, scope.cancel(), reschedule(), nested move_on_after/timeout/open scopes with delays 0-6 ticks, ignore_cancellation sections, task groups with one child) x "
         "one external task.cancel() at tick 0-8 or none; distinct = distinct (program text, external-cancel tick)"
     )
     if not _model(chk, quick):
@@ -365,7 +383,8 @@ def run(chk: Check) -> None:
             f"cancel scopes: not a behaviour of the reference semantics (event #{pos}: {failing}) -- {t['meta']} events={[(e['ev'], e['id'], e['caught'], e['cc'], e['exc'], e['t']) for e in evs]}",
             {"kind": "scope_program", "ast": t["ast"], "ext": ext, "events": evs, "rejected_at": pos},
         )
-    chk.not_covered.append("task-group children inside scopes (programs are single-task)")
+    chk.extra["programs_with_task_group"] = sum(1 for t in rec if "group{" in t["meta"])
+    chk.not_covered.append("task groups with several children or children that open scopes of their own (one sleeping-then-marking child per group)")
     chk.assumptions += [
         "exact timer ties (a sleep ending at the very instant a deadline or the external cancellation fires) are allowed either way",
         "scopes inside ignore_cancellation do not interrupt their body in this library; the property's wording ('unshielded') permits it",
